@@ -23,6 +23,7 @@ FIXED = [
     (["C11"], "pep440-order-differs (numeric local part above u32)", "4178de6", "cmp('0rc0.dev0+5000000000', '0rc0.dev0+10000000000') = Greater: all-digit local parts above u32 were kept as text (fix 35b8d11) and compared as text"),
     (["C15", "C07"], "template-pep440-differs (numbers above u32)", "7662a0a", "--output-format pep440 refuses post = 4294967296 but --output-template '{{ pep440 }}' printed '1.2.3rc0' / '4294967295!11506.2a26957+5000000000...' (the range check of 369acaa covered the formatter only)"),
     (["C17", "C06"], "timestamp-field-differs (year 10000 and later, values above i64)", "2b0839f", "resolve_timestamp('YYYY', 275672913501) = '+10705'; --bumped-timestamp 253402300800 --schema calver printed '1.1.3-10000'; bumped_timestamp 2^64-1 resolved to 1969-12-31"),
+    (["C02"], "tag-commit-hash-differs / valid-tag-not-found (path named like a ref)", "285787a", "a committed file or directory named like the base tag: tag commit hash reported as None; a tracked file named HEAD: 'No commits found in git repository' (git: 'ambiguous argument: both revision and filename')"),
     (["C13"], "panic@library/std/src/env.rs", "79a9ee3", "an argument that is not valid UTF-8 (`zerv check $'a\\xffb'`, `--bumped-branch $'\\xff'`) panicked in std::env::args() (exit 101)"),
     (["C13", "C15"], "panic@src/cli/utils/template/functions.rs:prefix", "c28a0f0", "prefix(value='ééééé', length=3) panicked (byte slice)"),
     (["C13", "C15"], "panic@src/cli/utils/template/functions.rs:format_timestamp", "af6e9ec", "format_timestamp(value=.., format='%Q') panicked (chrono Display error)"),
